@@ -1480,8 +1480,35 @@ func ruleS17_8(c *Ctx, id string) {
 		if !ok || !isStatusStore(in) {
 			return false
 		}
-		k, isk := constIntDeep(st.Val)
-		return isk && k != 0
+		if k, isk := constIntDeep(st.Val); isk {
+			return k != 0
+		}
+		// the status handed in by the callers of a helper ("refuse(reply, why)"): failing when every caller passes
+		// a failing constant
+		if pm, isPm := stripConv(st.Val).(*ssa.Parameter); isPm {
+			fn := pm.Parent()
+			idx := -1
+			for i, q := range fn.Params {
+				if q == pm {
+					idx = i
+				}
+			}
+			cs := P.CallersOf(fn)
+			if idx < 0 || len(cs) == 0 {
+				return false
+			}
+			for _, c2 := range cs {
+				fa := fullArgs(c2.Instr)
+				if idx >= len(fa) {
+					return false
+				}
+				if k, isk := constIntDeep(fa[idx]); !isk || k == 0 {
+					return false
+				}
+			}
+			return true
+		}
+		return false
 	}
 	// "stored" at every return: a forward must-analysis over the blocks.  A block stores when it holds a store
 	// to a Status, or a call of a function that stores at all its returns; the 'false' side of a helper that is
